@@ -36,7 +36,7 @@ TECHNIQUE = "relational symbolic execution of the real generator stages run twic
 needs_reach = False
 EXTRA_STUBS = genh.EXTRA_STUBS
 GROUP_BY_QUERY = True
-REQUIRED_WITNESSES = ['orders_differ', 'same_order', 'firewall', 'vulnerability', 'glue_twice', 'bench_params', 'audit_clean']
+REQUIRED_WITNESSES = ['orders_differ', 'same_order', 'firewall', 'vulnerability', 'privescs', 'glue_twice', 'bench_params', 'audit_clean']
 STUBS = c15.STUBS + ["set (generator module) -> name set iterated in a solver-chosen total order per simulated process"]
 ASSUMPTIONS = ["numpy's RandomState is a function of its seed in every process (trusted)",
                "entropy audit: no source other than the modelled np.random functions and set iteration in the generator (checked mechanically on every run; rendering is out of scope)"]
@@ -191,6 +191,7 @@ def queries(tier, seed=0):
             qs.append(dict(stage='firewall', n=n, S=S, O=1, P=1, restrictiveness=rs,
                            defs=0 if S == 2 else 3, concrete_hosts=(S == 3)))
     qs.append(dict(stage='vulnerability', n=3, S=2, O=2, P=2, defs=0))
+    qs.append(dict(stage='privescs', O=3, P=2, PE=3))
     qs.append(dict(stage='glue_twice', n=3, S=1, O=1, P=1))
     for name in ('tiny-gen', 'medium-gen'):
         qs.append(dict(stage='bench_params', kind='bench_params', name=name))
@@ -266,6 +267,8 @@ def run(src, q):
             outs.append(sc)
         r.outs = outs
         return r
+    if st == 'privescs':
+        return _run_privescs(src, q, r)
     g0 = _build(src, q)
     names = list(g0.services)
     outs = []
@@ -302,6 +305,28 @@ def run(src, q):
                         else:
                             g._ensure_host_vulnerability()
                             outs.append(_hosts_plain(g.hosts))
+            finally:
+                genh.OrderedNameSet.order = None
+    except genh.StreamCap:
+        r.capped = True
+    r.outs = outs
+    return r
+
+
+def _run_privescs(src, q, r):
+    outs = []
+    r.orders = []
+    try:
+        for tag in ('A', 'B'):
+            g = genh.new_generator(1, q['O'], q['P'])
+            order, ranks = make_order(src, tag, list(g.os))
+            r.orders.append(ranks)
+            genh.OrderedNameSet.order = order
+            try:
+                with genh.stream(src, cap=7):     # one os_choices round, three process draws, one retry
+                    with stubs.sut():
+                        g._generate_privescs(q['PE'], 1, 1.0)
+                outs.append({k: dict(v) for k, v in g.privescs.items()})
             finally:
                 genh.OrderedNameSet.order = None
     except genh.StreamCap:
